@@ -74,7 +74,7 @@ type RunCfg struct {
 }
 
 var strPool = []string{"a", "b", "ab", "abc", "x", "xy", "a.b", "B", "zz"}
-var numPool = []string{"0", "1", "2", "3", "5", "7", "10", "-1", "100", "16777217", "1700000001", "123456789012"}
+var numPool = []string{"0", "1", "2", "3", "5", "7", "10", "-1", "100", "16777217", "1700000001", "123456789012", "0.5", "1.5", "2.5"} /* halves are exact in binary floating point: no C12 effects */
 
 type attrT struct{ name, typ string }
 
